@@ -138,10 +138,15 @@ def file_dump(fp, bps, blocks):
 
 
 # ------------------------------------------------------------------------------------------------
-def make_session(fp, bps, ops, target="fd", compress="n", end_flush=True, destroy=True):
+NAME_TAILS = [".part", ".part1", ".parts", "a.part.b", ".gz", ".xz.part", ".PART", "part"]
+
+
+def make_session(fp, bps, ops, target="fd", compress="n", end_flush=True, destroy=True, name_tail=""):
     """ops: ("Q"|"A"|"M", rec, stats|None) | ("W",) | ("SA", i) | ("C",) | ("R", target, export) | ("AB", bp)
     -> (line, ref, expected results)"""
     toks = ["FP:" + ",".join("%s=%d" % kv for kv in fp.items())] + [G.bp_token(b) for b in bps]
+    if name_tail:
+        toks.append("NM:" + name_tail)        # named outputs whose names contain or end in ".part", a compression suffix, ...
     toks.append("X:%s:%s" % (target, compress))
     ref = RefExporter(fp, bps)
     ndefined = len(bps)
@@ -272,7 +277,8 @@ def gen_session(rng, nops=None, rotations=False, compress="n", target="fd", nbps
         elif late_bps:
             bp = G.gen_bp(rng, simple=simple_bp, tps=tps)
             ops.append(("AB", bp)); shadow.add_bp(bp)
-    return make_session(fp, bps, ops, target=target, compress=compress, end_flush=end_flush)
+    tail = rng.choice(NAME_TAILS) if target == "nm" and rng.random() < 0.35 else ""
+    return make_session(fp, bps, ops, target=target, compress=compress, end_flush=end_flush, name_tail=tail)
 
 
 def alignment_sweep(rng, lengths, target="fd", compress="n", rotate=False):
